@@ -15,7 +15,7 @@ use std::process::{Command, Stdio};
 use std::time::{Duration, Instant};
 use xml_schema_generator::{Element, Options, SortBy};
 
-pub const PARTS: &[&str] = &["bytes", "tokens", "edits", "edits2", "depth", "reader", "reader-docs"];
+pub const PARTS: &[&str] = &["bytes", "tokens", "edits", "edits2", "long", "depth", "reader", "reader-docs"];
 
 fn tier_of(s: &str) -> Tier {
     if s == "thorough" {
@@ -41,6 +41,7 @@ fn space(part: &str, tier: Tier) -> Option<Box<dyn InputSpace>> {
         "tokens" => Some(Box::new(Tokens { tokens: xml_tokens(), max_len: tier.pick(4, 5) })),
         "edits" => Some(Box::new(Edits::new(valid_docs(3, vec![Kind::Text, Kind::CData, Kind::Comment, Kind::PI]), false))),
         "edits2" => Some(Box::new(Edits::new(valid_docs(tier.pick(1, 2), vec![Kind::Text, Kind::CData, Kind::Comment]), true))),
+        "long" => Some(Box::new(Listed(long_inputs(tier.pick(300, 1100))))),
         "reader" => Some(Box::new(Tokens { tokens: xml_tokens(), max_len: 3 })),
         "reader-docs" => Some(Box::new(Listed(valid_docs(tier.pick(3, 4), vec![Kind::Text, Kind::CData, Kind::Comment, Kind::PI])))),
         _ => None,
@@ -160,6 +161,23 @@ impl InputSpace for Listed {
     fn describe(&self) -> String {
         format!("{} valid documents", self.0.len())
     }
+}
+
+/// long names, values and character data with a multi-byte character at every offset
+pub fn long_inputs(max_offset: usize) -> Vec<Vec<u8>> {
+    let mut out = Vec::new();
+    for pos in 0..=max_offset {
+        for ch in ["é", "𝄞"] {
+            let body = format!("{}{}aaa", "a".repeat(pos), ch);
+            out.push(format!("<r>{}</r>", body).into_bytes());
+            out.push(format!("<r><![CDATA[{}]]></r>", body).into_bytes());
+            out.push(format!("<r k=\"{}\"/>", body).into_bytes());
+            out.push(format!("<r><n{}/></r>", body).into_bytes());
+            out.push(format!("<r n{}=\"v\"><b/></r>", body).into_bytes());
+            out.push(format!("<r><!--{}--><b>{}</b><b/></r>", body, body).into_bytes());
+        }
+    }
+    out
 }
 
 fn reaches_element(bytes: &[u8]) -> bool {
@@ -403,8 +421,8 @@ pub fn run(ctx: &Ctx) {
     ctx.set("exhaustive", json!(true));
     let tier = ctx.tier;
     let parts: Vec<&str> = match tier {
-        Tier::Quick => vec!["bytes", "tokens", "edits", "depth", "reader", "reader-docs"],
-        Tier::Thorough => vec!["bytes", "tokens", "edits", "edits2", "depth", "reader", "reader-docs"],
+        Tier::Quick => vec!["bytes", "tokens", "edits", "long", "depth", "reader", "reader-docs"],
+        Tier::Thorough => vec!["bytes", "tokens", "edits", "edits2", "long", "depth", "reader", "reader-docs"],
     };
     let mut total_calls = 0u64;
     let mut total_inputs = 0u64;
